@@ -63,6 +63,12 @@ func restoreDir(dir string, snap map[string][]byte) {
 // prepareHistory saves wallet `prev` with prevKey and then wallet `cur` with key to dir/wallet through the real
 // SaveWallet and returns the snapshot of the directory and the bytes of the current wallet file.
 func prepareHistory(dir string, prevIdx int, prevKey []byte, curIdx int, key []byte) (map[string][]byte, []byte, error) {
+	return prepareHistoryX(dir, prevIdx, prevKey, curIdx, key, 0)
+}
+
+// prepareHistoryX: extra > 0 appends that many bytes to the earlier file before the second save (a longer file of
+// whatever origin sits at the path: a damaged copy, an older format).
+func prepareHistoryX(dir string, prevIdx int, prevKey []byte, curIdx int, key []byte, extra int) (map[string][]byte, []byte, error) {
 	if err := os.MkdirAll(dir, 0o755); err != nil {
 		return nil, nil, err
 	}
@@ -71,6 +77,19 @@ func prepareHistory(dir string, prevIdx int, prevKey []byte, curIdx int, key []b
 	pw := fixedWallet(prevIdx)
 	if err := fileoperations.New(fileoperations.Config{WalletPath: path, WalletPasswd: hex.EncodeToString(prevKey)}, sealer).SaveWallet(&pw); err != nil {
 		return nil, nil, fmt.Errorf("first SaveWallet: %w", err)
+	}
+	if extra > 0 {
+		old, err := os.ReadFile(path)
+		if err != nil {
+			return nil, nil, err
+		}
+		tail := make([]byte, extra)
+		for i := range tail {
+			tail[i] = byte(0x30 + i%10)
+		}
+		if err := os.WriteFile(path, append(old, tail...), 0o644); err != nil {
+			return nil, nil, err
+		}
 	}
 	cw := fixedWallet(curIdx)
 	if err := fileoperations.New(fileoperations.Config{WalletPath: path, WalletPasswd: hex.EncodeToString(key)}, sealer).SaveWallet(&cw); err != nil {
@@ -90,6 +109,7 @@ func runHistories(root string, thorough bool, wrong [][]byte) ([]histFinding, in
 		cur, prev int
 		key, pkey []byte
 		kind      string
+		extra     int
 	}
 	k16, k32 := fixedKey(16), fixedKey(32)
 	other16 := append([]byte(nil), k16...)
@@ -100,11 +120,13 @@ func runHistories(root string, thorough bool, wrong [][]byte) ([]histFinding, in
 	for cur := 0; cur < nWallets; cur++ {
 		prev := (cur + 1) % nWallets
 		pairs = append(pairs,
-			pair{cur, prev, k16, k16, "earlier-wallet-same-key"},
-			pair{cur, prev, k32, k32, "earlier-wallet-same-key"},
-			pair{cur, prev, k16, other16, "earlier-wallet-other-key"},
-			pair{cur, prev, k32, other32, "earlier-wallet-other-key"},
-			pair{cur, cur, k32, k16, "same-wallet-other-key-length"})
+			pair{cur: cur, prev: prev, key: k16, pkey: k16, kind: "earlier-wallet-same-key"},
+			pair{cur: cur, prev: prev, key: k32, pkey: k32, kind: "earlier-wallet-same-key"},
+			pair{cur: cur, prev: prev, key: k16, pkey: other16, kind: "earlier-wallet-other-key"},
+			pair{cur: cur, prev: prev, key: k32, pkey: other32, kind: "earlier-wallet-other-key"},
+			pair{cur: cur, prev: cur, key: k32, pkey: k16, kind: "same-wallet-other-key-length"},
+			pair{cur: cur, prev: prev, key: k16, pkey: k16, kind: "longer-file-at-the-path", extra: 1},
+			pair{cur: cur, prev: prev, key: k32, pkey: k16, kind: "longer-file-at-the-path", extra: 200})
 	}
 	var mu sync.Mutex
 	var findings []histFinding
@@ -117,7 +139,7 @@ func runHistories(root string, thorough bool, wrong [][]byte) ([]histFinding, in
 		go func(pi int, p pair) {
 			defer wg.Done()
 			dir := filepath.Join(root, fmt.Sprintf("hist-%d", pi))
-			snap, file, err := prepareHistory(dir, p.prev, p.pkey, p.cur, p.key)
+			snap, file, err := prepareHistoryX(dir, p.prev, p.pkey, p.cur, p.key, p.extra)
 			if err != nil {
 				mu.Lock()
 				if firstErr == nil {
@@ -181,7 +203,7 @@ func runHistories(root string, thorough bool, wrong [][]byte) ([]histFinding, in
 						p.prev, len(p.pkey), p.cur, len(p.key), c.descr, outName[r.out], r.detail, r.msg)
 					findings = append(findings, histFinding{pi*100000 + ci, common.Violation{Predicate: "C20.history", Key: key, What: what, Scenario: "history/" + p.kind,
 						Witness: map[string]any{"mode": "history", "kind": p.kind, "earlier_wallet": p.prev, "earlier_key_hex": hex.EncodeToString(p.pkey), "wallet": p.cur,
-							"save_key_hex": hex.EncodeToString(p.key), "key_hex": hex.EncodeToString(c.key), "data_hex": hex.EncodeToString(c.data), "class": c.class, "case": c.descr,
+							"save_key_hex": hex.EncodeToString(p.key), "extra_bytes": p.extra, "key_hex": hex.EncodeToString(c.key), "data_hex": hex.EncodeToString(c.data), "class": c.class, "case": c.descr,
 							"outcome": outName[r.out], "detail": r.detail, "message": r.msg}}})
 				}
 				mu.Unlock()
@@ -202,7 +224,7 @@ func replayHistory(w map[string]any) int {
 		return 2
 	}
 	defer os.RemoveAll(dir)
-	snap, _, err := prepareHistory(dir, num("earlier_wallet"), get("earlier_key_hex"), num("wallet"), get("save_key_hex"))
+	snap, _, err := prepareHistoryX(dir, num("earlier_wallet"), get("earlier_key_hex"), num("wallet"), get("save_key_hex"), num("extra_bytes"))
 	if err != nil {
 		fmt.Fprintln(os.Stderr, err)
 		return 2
